@@ -166,8 +166,12 @@ template <class X> void nr_run(Ctx& c, const Str& Rs, const Str& Bs, const char*
     UriBox<X> B, R; if (B.parse(Bs) != URI_SUCCESS || R.parse(Rs) != URI_SUCCESS) return;
     if (!B.faithful()) { c.count("skipped_unfaithful_parse"); return; }
     UriBox<X> T1, T2; int r1, r2;
-    { LibScope ls; r1 = X::AddBaseUri(&T1.u, &Rn.u, &B.u); } T1.live = r1 == URI_SUCCESS;
-    { LibScope ls; r2 = X::AddBaseUri(&T2.u, &R.u, &B.u); } T2.live = r2 == URI_SUCCESS;
+    // mostly the plain entry point; now and then ...Ex / ...ExMm with an options word whose compatibility bit is clear but another bit set
+    // (strict resolution all the same)
+    int how = (int)c.rng.below(8); static const unsigned OW[] = {0x2u, 0x100u, 0x7FFFFFFEu};
+    UriResolutionOptions ow = (UriResolutionOptions)OW[c.rng.below(3)];
+    { LibScope ls; r1 = how == 0 ? X::AddBaseUriEx(&T1.u, &Rn.u, &B.u, ow) : how == 1 ? X::AddBaseUriExMm(&T1.u, &Rn.u, &B.u, ow, nullptr) : X::AddBaseUri(&T1.u, &Rn.u, &B.u); } T1.live = r1 == URI_SUCCESS;
+    { LibScope ls; r2 = how == 0 ? X::AddBaseUriEx(&T2.u, &R.u, &B.u, ow) : how == 1 ? X::AddBaseUriExMm(&T2.u, &R.u, &B.u, ow, nullptr) : X::AddBaseUri(&T2.u, &R.u, &B.u); } T2.live = r2 == URI_SUCCESS;
     c.evaluations += 2;
     if (r1 != URI_SUCCESS || r2 != URI_SUCCESS) { c.violation("C09", fmt("normres/%s/resolve-failed", X::tag()), what + fmt(" rc=%d/%d", r1, r2)); return; }
     if (T1.normalize(63) != URI_SUCCESS || T2.normalize(63) != URI_SUCCESS) { c.count("normalize_failed"); return; }
